@@ -436,6 +436,16 @@ def case_foldunfold(chk, ctx, fs):
     if exc is not None:
         return
     out = ask(driver, op, '-', '-', fs)
+    if op == 'fold' and out.startswith('ok '):
+        # round 5: the data UNDER the folded-out mask are part of the interface (`unfold`, hence `project`/`marginalize` of folded
+        # spectra, read them — C10_obsF_unfold_fold): the model says exactly 0
+        m = parse_model(out)
+        if tuple(res.shape) == m['shape']:
+            fo = res._total_per_entry() > int(np.sum(res.sample_sizes) / 2)
+            x = np.asarray(res.data)[fo]; y = m['data'][fo]
+            if x.size and not (np.all(np.isfinite(x)) and float(np.max(np.abs(x - y))) <= RTOL * max(1.0, float(np.max(np.abs(np.asarray(res.data)))))):
+                chk.k_bad('fold:under_folded_out_mask', inp, 'data under the folded-out mask: max |impl - model| = %.3g' % float(np.max(np.abs(x - y))), out[:300], None)
+                return
     compare_model(chk, op, inp, res, out)
     chk.stat('op:' + op)
 
@@ -721,6 +731,9 @@ def merged_split(chk, ctx, rng, d, cap, forced=None, U=None):
         term, e2 = call(lambda: U.project(mm).combine_two_pops(tc))
         if e2 is not None:
             chk.fail('merged_split:raises', 'project(%r).combine_two_pops raises %r' % (mm, e2), inp); return
+        if tuple(term.shape) != tuple(lhs.shape):
+            chk.fail('merged_split:shape', 'project(%r).combine_two_pops(%r) has shape %s, combine_two_pops(%r).project(%r) has shape %s'
+                     % (mm, tc, tuple(term.shape), tc, tgt, tuple(lhs.shape)), inp); return
         acc += float(w) * np.asarray(term.data); anymask |= np.asarray(term.mask)
     keep = ~anymask
     if np.any(keep):
